@@ -192,9 +192,14 @@ impl BackwardEngine {
         let mut entries: Vec<(String, crate::types::Value)> =
             facts.get_all_facts().into_iter().collect();
         entries.sort_by(|a, b| a.0.cmp(&b.0));
+        // The verdict also depends on the rule set: the knowledge base can be edited through
+        // `knowledge_base()`, and every edit increments its version.
         format!(
-            "{}\u{0}{}\u{0}{:?}",
-            query_str, self.config.max_solutions, entries
+            "{}\u{0}{}\u{0}{}\u{0}{:?}",
+            query_str,
+            self.config.max_solutions,
+            self.knowledge_base.version(),
+            entries
         )
     }
 
@@ -308,6 +313,9 @@ impl BackwardEngine {
     pub fn rebuild_index(&mut self) {
         let rules = self.knowledge_base.get_rules();
         self.conclusion_index = ConclusionIndex::from_rules(&rules);
+        // Verdicts memoised with the previous index may differ from what a search with the
+        // rebuilt one finds.
+        self.goal_manager.clear();
     }
 
     /// Query with aggregation functions
